@@ -1,7 +1,652 @@
-import Netpol.Model.Engine
-import Netpol.Model.Diff
-import Netpol.Model.Sort
+import Netpol.Proofs.SpecLaws
+
+/-! C14: NetworkPolicies are additive and local, and equivalent spellings agree — proved on the
+pointwise specification `Netpol.Spec.allowed` (`Netpol/Spec/K8s.lean`). The last section holds
+the order-independence part of C08 (`perm_…`), also on the specification.
+
+Vocabulary (defined in `Netpol.Proofs.SpecLaws`): `Spec.NPOnly v` = the view has no
+AdminNetworkPolicy and no BaselineAdminNetworkPolicy; `np.setRules d rs` = the policy `np` with the
+rule list of direction `d` replaced by `rs` (`np.setRules .ingress rs = { np with ingress := rs }`
+by `rfl`, same for egress); `Spec.selectsEnd q e d` = `e` is a pod selected by `q` in direction
+`d` (false for an external address); `Spec.allowedNP` = `Spec.allowed` without the admin layers
+(equal to it on `NPOnly` views, and evaluable by `decide`); `c.halves` = the two half-blocks of
+a CIDR. An edited view is always written `{ v with netpols := … }` next to a hypothesis
+`v.netpols = …` that locates the edit. -/
 namespace Netpol.Properties.C14
-open Netpol
+open Netpol Netpol.Spec
+
+/-! ## A. additivity, monotonicity, locality (views without admin policies) -/
+
+/-- A1. Adding a rule to a policy, in a direction the policy already affects, can only allow
+more. `np.setRules dr (rs1 ++ r :: rs2)` is `np` with `r` inserted anywhere in direction `dr`. -/
+theorem add_rule_monotone {v : View} (hv : NPOnly v) {pre post : List NetPol} {np : NetPol}
+    (hnp : v.netpols = pre ++ np :: post) {dr : Dir} {rs1 rs2 : List NPRule} (r : NPRule)
+    (hrs : npRules np dr = rs1 ++ rs2)
+    (haff : ∀ d, npAffects (np.setRules dr (rs1 ++ r :: rs2)) d = npAffects np d)
+    (src dst : End) (pr : Proto) (p : Int) :
+    allowed v src dst pr p = true →
+      allowed { v with netpols := pre ++ np.setRules dr (rs1 ++ r :: rs2) :: post }
+        src dst pr p = true := by
+  have hsub : ∀ d, ∀ x ∈ npRules np d, x ∈ npRules (np.setRules dr (rs1 ++ r :: rs2)) d := by
+    intro d x hx
+    by_cases hd : d = dr
+    · subst hd
+      rw [hrs] at hx
+      simp only [npRules_setRules_same, List.mem_append, List.mem_cons] at hx ⊢
+      rcases hx with h | h
+      · exact Or.inl h
+      · exact Or.inr (Or.inr h)
+    · rw [npRules_setRules_ne np _ hd]; exact hx
+  exact allowed_replace_np_mono hv hnp
+    (npSelects_congr (by simp) (by simp) haff)
+    (npContrib_mono_of_subset (by simp) (by simp) haff hsub) src dst pr p
+
+/-- the hypothesis `haff` of `add_rule_monotone` always holds for an ingress rule -/
+theorem add_ingress_rule_affects (np : NetPol) (rs : List NPRule) (d : Dir) :
+    npAffects (np.setRules .ingress rs) d = npAffects np d :=
+  npAffects_setRules_ingress np rs d
+
+/-- the hypothesis `haff` of `add_rule_monotone` holds for an egress rule when `policyTypes` is
+explicit or the policy already has an egress rule -/
+theorem add_egress_rule_affects (np : NetPol) (h : np.types ≠ [] ∨ np.egress ≠ [])
+    (rs1 rs2 : List NPRule) (r : NPRule) (d : Dir) :
+    npAffects (np.setRules .egress (rs1 ++ r :: rs2)) d = npAffects np d := by
+  apply npAffects_setRules_egress
+  rcases h with h | h
+  · exact Or.inl h
+  · right
+    cases he : np.egress with
+    | nil => exact absurd he h
+    | cons a l => simp [isEmpty_append']
+
+/-- A1, ingress: no side condition -/
+theorem add_ingress_rule_monotone {v : View} (hv : NPOnly v) {pre post : List NetPol}
+    {np : NetPol} (hnp : v.netpols = pre ++ np :: post) {rs1 rs2 : List NPRule} (r : NPRule)
+    (hrs : np.ingress = rs1 ++ rs2) (src dst : End) (pr : Proto) (p : Int) :
+    allowed v src dst pr p = true →
+      allowed { v with netpols := pre ++ { np with ingress := rs1 ++ r :: rs2 } :: post }
+        src dst pr p = true :=
+  add_rule_monotone hv hnp (dr := .ingress) r hrs (add_ingress_rule_affects np _) src dst pr p
+
+/-- A1, egress: `policyTypes` explicit, or an egress rule is already there -/
+theorem add_egress_rule_monotone {v : View} (hv : NPOnly v) {pre post : List NetPol}
+    {np : NetPol} (hnp : v.netpols = pre ++ np :: post) (h : np.types ≠ [] ∨ np.egress ≠ [])
+    {rs1 rs2 : List NPRule} (r : NPRule)
+    (hrs : np.egress = rs1 ++ rs2) (src dst : End) (pr : Proto) (p : Int) :
+    allowed v src dst pr p = true →
+      allowed { v with netpols := pre ++ { np with egress := rs1 ++ r :: rs2 } :: post }
+        src dst pr p = true :=
+  add_rule_monotone hv hnp (dr := .egress) r hrs (add_egress_rule_affects np h _ _ r) src dst pr p
+
+/-- A2 (local form). Adding a policy `q` anywhere: if the source, when `q` selects it for egress,
+was already governed for egress, and the destination, when `q` selects it for ingress, was
+already governed for ingress, then nothing allowed is lost. -/
+theorem add_policy_governed_monotone_local {v : View} (hv : NPOnly v) {pre post : List NetPol}
+    (hnp : v.netpols = pre ++ post) (q : NetPol) (src dst : End) (pr : Proto) (p : Int)
+    (hsrc : ∀ pod nsl, src = .pod pod nsl → npSelects q pod .egress = true →
+      governs v pod .egress = true)
+    (hdst : ∀ pod nsl, dst = .pod pod nsl → npSelects q pod .ingress = true →
+      governs v pod .ingress = true) :
+    allowed v src dst pr p = true →
+      allowed { v with netpols := pre ++ q :: post } src dst pr p = true := by
+  refine allowed_mono_of_dir hv (hv.withNetpols _) (allowedDirNP_mono ?_ ?_)
+    (allowedDirNP_mono ?_ ?_)
+  · intro pod nsl h
+    rw [governs_insert hnp]
+    have := hsrc pod nsl h
+    revert this
+    cases governs v pod .egress <;> cases npSelects q pod .egress <;> simp
+  · intro pod nsl _ h
+    rw [npAllows_insert hnp, h, Bool.true_or]
+  · intro pod nsl h
+    rw [governs_insert hnp]
+    have := hdst pod nsl h
+    revert this
+    cases governs v pod .ingress <;> cases npSelects q pod .ingress <;> simp
+  · intro pod nsl _ h
+    rw [npAllows_insert hnp, h, Bool.true_or]
+
+/-- A2. Adding a policy that only selects pods already governed (in the direction in which it
+selects them) can only allow more. The hypothesis ranges over all pods; see
+`add_policy_governed_monotone_local` for the version that looks at the two ends only. -/
+theorem add_policy_governed_monotone {v : View} (hv : NPOnly v) {pre post : List NetPol}
+    (hnp : v.netpols = pre ++ post) (q : NetPol)
+    (hq : ∀ pod d, npSelects q pod d = true → governs v pod d = true)
+    (src dst : End) (pr : Proto) (p : Int) :
+    allowed v src dst pr p = true →
+      allowed { v with netpols := pre ++ q :: post } src dst pr p = true :=
+  add_policy_governed_monotone_local hv hnp q src dst pr p
+    (fun pod _ _ => hq pod .egress) (fun pod _ _ => hq pod .ingress)
+
+/-- A3 (local form). Adding a policy `q` anywhere: if the source, when `q` selects it for egress,
+was not governed for egress, and likewise the destination for ingress, then nothing becomes
+allowed that was not. -/
+theorem add_policy_ungoverned_antitone_local {v : View} (hv : NPOnly v) {pre post : List NetPol}
+    (hnp : v.netpols = pre ++ post) (q : NetPol) (src dst : End) (pr : Proto) (p : Int)
+    (hsrc : ∀ pod nsl, src = .pod pod nsl → npSelects q pod .egress = true →
+      governs v pod .egress = false)
+    (hdst : ∀ pod nsl, dst = .pod pod nsl → npSelects q pod .ingress = true →
+      governs v pod .ingress = false) :
+    allowed { v with netpols := pre ++ q :: post } src dst pr p = true →
+      allowed v src dst pr p = true := by
+  have key : ∀ (self other : End) (d : Dir),
+      (∀ pod nsl, self = .pod pod nsl → npSelects q pod d = true → governs v pod d = false) →
+      allowedDirNP { v with netpols := pre ++ q :: post } self other dst d pr p = true →
+      allowedDirNP v self other dst d pr p = true := by
+    intro self other d h
+    cases self with
+    | ip a => intro _; rfl
+    | pod pod nsl =>
+      have h := h pod nsl rfl
+      simp only [allowedDirNP, governs_insert hnp, npAllows_insert hnp]
+      cases hs : npSelects q pod d
+      · rw [npContrib_of_not_selects hs]; simp
+      · rw [h hs]; simp
+  exact allowed_mono_of_dir (hv.withNetpols _) hv (key src dst .egress hsrc)
+    (key dst src .ingress hdst)
+
+/-- A3. Adding a policy that only selects pods not governed so far (in the direction in which it
+selects them) can only allow less. -/
+theorem add_policy_ungoverned_antitone {v : View} (hv : NPOnly v) {pre post : List NetPol}
+    (hnp : v.netpols = pre ++ post) (q : NetPol)
+    (hq : ∀ pod d, npSelects q pod d = true → governs v pod d = false)
+    (src dst : End) (pr : Proto) (p : Int) :
+    allowed { v with netpols := pre ++ q :: post } src dst pr p = true →
+      allowed v src dst pr p = true :=
+  add_policy_ungoverned_antitone_local hv hnp q src dst pr p
+    (fun pod _ _ => hq pod .egress) (fun pod _ _ => hq pod .ingress)
+
+/-- A4 (general form). Replacing a policy that selects neither the source for egress nor the
+destination for ingress by another such policy does not change the verdict for this pair — in
+any view, admin policies included. -/
+theorem locality_replace (v : View) {pre post : List NetPol} {np np' : NetPol}
+    (hnp : v.netpols = pre ++ np :: post) (src dst : End)
+    (hsrc : selectsEnd np src .egress = false) (hdst : selectsEnd np dst .ingress = false)
+    (hsrc' : selectsEnd np' src .egress = false) (hdst' : selectsEnd np' dst .ingress = false)
+    (pr : Proto) (p : Int) :
+    allowed { v with netpols := pre ++ np' :: post } src dst pr p = allowed v src dst pr p := by
+  have key : ∀ (self other : End) (d : Dir), selectsEnd np self d = false →
+      selectsEnd np' self d = false →
+      allowedDir { v with netpols := pre ++ np' :: post } self other dst d pr p =
+        allowedDir v self other dst d pr p := by
+    intro self other d h h'
+    refine allowedDir_congr (v := v) (v' := { v with netpols := pre ++ np' :: post }) rfl rfl ?_ ?_
+    · rintro pod nsl rfl
+      simp only [selectsEnd] at h h'
+      simp only [governs_eq_any, hnp, List.any_append, List.any_cons, h, h']
+    · rintro pod nsl rfl
+      simp only [selectsEnd] at h h'
+      simp only [npAllows_eq_any, hnp, List.any_append, List.any_cons,
+        npContrib_of_not_selects h, npContrib_of_not_selects h']
+  simp only [allowed, key src dst .egress hsrc hsrc', key dst src .ingress hdst hdst']
+
+/-- A4. A new policy that selects neither the source for egress nor the destination for ingress
+(void for an external address) does not change the verdict for this pair — in any view. -/
+theorem locality (v : View) {pre post : List NetPol} (hnp : v.netpols = pre ++ post) (q : NetPol)
+    (src dst : End) (hsrc : selectsEnd q src .egress = false)
+    (hdst : selectsEnd q dst .ingress = false) (pr : Proto) (p : Int) :
+    allowed { v with netpols := pre ++ q :: post } src dst pr p = allowed v src dst pr p := by
+  have key : ∀ (self other : End) (d : Dir), selectsEnd q self d = false →
+      allowedDir { v with netpols := pre ++ q :: post } self other dst d pr p =
+        allowedDir v self other dst d pr p := by
+    intro self other d h
+    refine allowedDir_congr (v := v) (v' := { v with netpols := pre ++ q :: post }) rfl rfl ?_ ?_
+    · rintro pod nsl rfl
+      simp only [selectsEnd] at h
+      rw [governs_insert hnp, h, Bool.or_false]
+    · rintro pod nsl rfl
+      simp only [selectsEnd] at h
+      rw [npAllows_insert hnp, npContrib_of_not_selects h, Bool.or_false]
+  simp only [allowed, key src dst .egress hsrc, key dst src .ingress hdst]
+
+/-- A4 for an added rule: if the policy (which keeps its affected directions, as in
+`add_rule_monotone`) selects neither the source for egress nor the destination for ingress, the
+verdict for this pair is unchanged — in any view. -/
+theorem locality_rule (v : View) {pre post : List NetPol} {np : NetPol}
+    (hnp : v.netpols = pre ++ np :: post) {dr : Dir} (rs : List NPRule)
+    (haff : ∀ d, npAffects (np.setRules dr rs) d = npAffects np d)
+    (src dst : End) (hsrc : selectsEnd np src .egress = false)
+    (hdst : selectsEnd np dst .ingress = false) (pr : Proto) (p : Int) :
+    allowed { v with netpols := pre ++ np.setRules dr rs :: post } src dst pr p =
+      allowed v src dst pr p := by
+  have hsel : ∀ e d, selectsEnd (np.setRules dr rs) e d = selectsEnd np e d := by
+    intro e d
+    cases e with
+    | ip a => rfl
+    | pod pod nsl => exact npSelects_congr (by simp) (by simp) haff pod d
+  exact locality_replace v hnp src dst hsrc hdst (by rw [hsel, hsrc]) (by rw [hsel, hdst]) pr p
+
+/-! ## B. equivalent spellings (any view, admin policies included) -/
+
+/-- B5. A `matchLabels` pair is the `matchExpressions` requirement `key In [value]`. -/
+theorem matchLabels_eq_In (ml : Labels) (ex : List Req) (k val : String) (l : Labels) :
+    Selector.matches ⟨ml ++ [(k, val)], ex⟩ l =
+      Selector.matches ⟨ml, ex ++ [⟨k, .In, [val]⟩]⟩ l := by
+  have := matchLabels_eq_In_mid ml [] ex [] k val l
+  simpa using this
+
+/-- B5, the pair and the requirement anywhere in their lists. -/
+theorem matchLabels_eq_In_anywhere (ml1 ml2 : Labels) (ex1 ex2 : List Req) (k val : String)
+    (l : Labels) :
+    Selector.matches ⟨ml1 ++ (k, val) :: ml2, ex1 ++ ex2⟩ l =
+      Selector.matches ⟨ml1 ++ ml2, ex1 ++ ⟨k, .In, [val]⟩ :: ex2⟩ l :=
+  matchLabels_eq_In_mid ml1 ml2 ex1 ex2 k val l
+
+/-- lifting to `allowed`: an equivalent pod selector of a policy -/
+theorem podSel_congr_allowed (v : View) {pre post : List NetPol} {np : NetPol}
+    (hnp : v.netpols = pre ++ np :: post) (sel' : Selector)
+    (h : ∀ l, sel'.matches l = np.podSel.matches l) :
+    allowed { v with netpols := pre ++ { np with podSel := sel' } :: post } = allowed v :=
+  allowed_replace_np_of_rules v hnp rfl h (fun _ => rfl) (fun d _ _ _ _ => by cases d <;> rfl)
+
+/-- lifting to `allowed`: one peer of one rule replaced by a peer matching the same ends -/
+theorem peer_congr_allowed (v : View) {pre post : List NetPol} {np : NetPol}
+    (hnp : v.netpols = pre ++ np :: post) {dr : Dir} {rs1 rs2 : List NPRule}
+    {ps1 ps2 : List NPPeer} {pe pe' : NPPeer} {ports : List NPPort}
+    (hrs : npRules np dr = rs1 ++ ⟨ps1 ++ pe :: ps2, ports⟩ :: rs2)
+    (h : ∀ other, npPeerMatches np pe' other = npPeerMatches np pe other) :
+    allowed { v with netpols :=
+      pre ++ np.setRules dr (rs1 ++ ⟨ps1 ++ pe' :: ps2, ports⟩ :: rs2) :: post } = allowed v := by
+  have := allowed_replace_peers v hnp (dr := dr) (rs1 := rs1) (rs2 := rs2) (ps1 := ps1)
+    (mid := [pe]) (mid' := [pe']) (ps2 := ps2) (ports := ports) (by simpa using hrs) rfl
+    (by simpa using h)
+  simpa using this
+
+/-- B5 on the pod selector of a policy -/
+theorem matchLabels_eq_In_podSel_allowed (v : View) {pre post : List NetPol} {np : NetPol}
+    (hnp : v.netpols = pre ++ np :: post) {ml1 ml2 : Labels} {ex1 ex2 : List Req} {k val : String}
+    (hsel : np.podSel = ⟨ml1 ++ (k, val) :: ml2, ex1 ++ ex2⟩) :
+    allowed { v with netpols :=
+      pre ++ { np with podSel := ⟨ml1 ++ ml2, ex1 ++ ⟨k, .In, [val]⟩ :: ex2⟩ } :: post } =
+      allowed v :=
+  podSel_congr_allowed v hnp _ (fun l => by rw [hsel, matchLabels_eq_In_mid])
+
+/-- B5 on the pod selector of a rule peer -/
+theorem matchLabels_eq_In_peerPodSel_allowed (v : View) {pre post : List NetPol} {np : NetPol}
+    (hnp : v.netpols = pre ++ np :: post) {dr : Dir} {rs1 rs2 : List NPRule}
+    {ps1 ps2 : List NPPeer} {nsSel : Option Selector} {ports : List NPPort}
+    {ml1 ml2 : Labels} {ex1 ex2 : List Req} {k val : String}
+    (hrs : npRules np dr = rs1 ++
+      ⟨ps1 ++ .sel (some ⟨ml1 ++ (k, val) :: ml2, ex1 ++ ex2⟩) nsSel :: ps2, ports⟩ :: rs2) :
+    allowed { v with netpols := pre ++ np.setRules dr (rs1 ++
+      ⟨ps1 ++ .sel (some ⟨ml1 ++ ml2, ex1 ++ ⟨k, .In, [val]⟩ :: ex2⟩) nsSel :: ps2, ports⟩ :: rs2)
+        :: post } = allowed v :=
+  peer_congr_allowed v hnp hrs
+    (npPeerMatches_podSel_congr np nsSel (fun l => (matchLabels_eq_In_mid ml1 ml2 ex1 ex2 k val l).symm))
+
+/-- B5 on the namespace selector of a rule peer -/
+theorem matchLabels_eq_In_peerNsSel_allowed (v : View) {pre post : List NetPol} {np : NetPol}
+    (hnp : v.netpols = pre ++ np :: post) {dr : Dir} {rs1 rs2 : List NPRule}
+    {ps1 ps2 : List NPPeer} {podSel : Option Selector} {ports : List NPPort}
+    {ml1 ml2 : Labels} {ex1 ex2 : List Req} {k val : String}
+    (hrs : npRules np dr = rs1 ++
+      ⟨ps1 ++ .sel podSel (some ⟨ml1 ++ (k, val) :: ml2, ex1 ++ ex2⟩) :: ps2, ports⟩ :: rs2) :
+    allowed { v with netpols := pre ++ np.setRules dr (rs1 ++
+      ⟨ps1 ++ .sel podSel (some ⟨ml1 ++ ml2, ex1 ++ ⟨k, .In, [val]⟩ :: ex2⟩) :: ps2, ports⟩ :: rs2)
+        :: post } = allowed v :=
+  peer_congr_allowed v hnp hrs
+    (npPeerMatches_nsSel_congr np podSel (fun l => (matchLabels_eq_In_mid ml1 ml2 ex1 ex2 k val l).symm))
+
+/-- B6. A port range is the union of two adjacent ranges. -/
+theorem port_range_split (pr' : Option Proto) (a m b : Int) (hm : a ≤ m ∧ m < b)
+    (dst : End) (pr : Proto) (p : Int) :
+    npPortMatches ⟨pr', .num a (some b)⟩ dst pr p =
+      (npPortMatches ⟨pr', .num a (some m)⟩ dst pr p ||
+        npPortMatches ⟨pr', .num (m + 1) (some b)⟩ dst pr p) :=
+  npPortMatches_range_split pr' a m b hm dst pr p
+
+/-- B6 on a rule: the range replaced by the two adjacent ranges allows the same points. -/
+theorem port_range_split_rule (np : NetPol) (peers : List NPPeer) (qs1 qs2 : List NPPort)
+    (pr' : Option Proto) (a m b : Int) (hm : a ≤ m ∧ m < b) (other dst : End) (pr : Proto)
+    (p : Int) :
+    npRuleAllows np ⟨peers, qs1 ++ [⟨pr', .num a (some m)⟩, ⟨pr', .num (m + 1) (some b)⟩] ++ qs2⟩
+        other dst pr p =
+      npRuleAllows np ⟨peers, qs1 ++ [⟨pr', .num a (some b)⟩] ++ qs2⟩ other dst pr p :=
+  npRuleAllows_replace_ports np (mid := [⟨pr', .num a (some b)⟩])
+    (mid' := [⟨pr', .num a (some m)⟩, ⟨pr', .num (m + 1) (some b)⟩]) rfl
+    (by simp only [List.any_cons, List.any_nil, Bool.or_false, port_range_split pr' a m b hm]) other
+
+/-- B6 lifted to `allowed`. -/
+theorem port_range_split_allowed (v : View) {pre post : List NetPol} {np : NetPol}
+    (hnp : v.netpols = pre ++ np :: post) {dr : Dir} {rs1 rs2 : List NPRule}
+    {peers : List NPPeer} {qs1 qs2 : List NPPort} {pr' : Option Proto} {a m b : Int}
+    (hm : a ≤ m ∧ m < b)
+    (hrs : npRules np dr = rs1 ++ ⟨peers, qs1 ++ ⟨pr', .num a (some b)⟩ :: qs2⟩ :: rs2) :
+    allowed { v with netpols := pre ++ np.setRules dr (rs1 ++
+      ⟨peers, qs1 ++ ⟨pr', .num a (some m)⟩ :: ⟨pr', .num (m + 1) (some b)⟩ :: qs2⟩ :: rs2)
+        :: post } = allowed v := by
+  have := allowed_replace_ports v hnp (dr := dr) (rs1 := rs1) (rs2 := rs2) (peers := peers)
+    (qs1 := qs1) (mid := [⟨pr', .num a (some b)⟩])
+    (mid' := [⟨pr', .num a (some m)⟩, ⟨pr', .num (m + 1) (some b)⟩]) (qs2 := qs2)
+    (by simpa using hrs) rfl
+    (fun dst pr p => by
+      simp only [List.any_cons, List.any_nil, Bool.or_false, port_range_split pr' a m b hm])
+  simpa using this
+
+/-- B7. A CIDR block is the union of its two halves. -/
+theorem cidr_halves (c : Cidr) (h : c.pfx < 32) (a : Int) :
+    cidrMem c a = (cidrMem c.halves.1 a || cidrMem c.halves.2 a) :=
+  cidrMem_halves c h a
+
+/-- B7 on a peer: the two half-blocks, with the same exceptions, match the same ends. -/
+theorem cidr_halves_peer (np : NetPol) (c : Cidr) (h : c.pfx < 32) (ex : List Cidr)
+    (other : End) :
+    (npPeerMatches np (.ip c.halves.1 ex) other || npPeerMatches np (.ip c.halves.2 ex) other) =
+      npPeerMatches np (.ip c ex) other := by
+  have := npPeerMatches_cidr_halves np c h ex other
+  simpa using this
+
+/-- B7 on a rule. -/
+theorem cidr_halves_rule (np : NetPol) (ps1 ps2 : List NPPeer) (ports : List NPPort) (c : Cidr)
+    (h : c.pfx < 32) (ex : List Cidr) (other dst : End) (pr : Proto) (p : Int) :
+    npRuleAllows np ⟨ps1 ++ [.ip c.halves.1 ex, .ip c.halves.2 ex] ++ ps2, ports⟩ other dst pr p =
+      npRuleAllows np ⟨ps1 ++ [.ip c ex] ++ ps2, ports⟩ other dst pr p :=
+  npRuleAllows_replace_peers np (mid := [.ip c ex])
+    (mid' := [.ip c.halves.1 ex, .ip c.halves.2 ex]) rfl
+    (npPeerMatches_cidr_halves np c h ex other) dst pr p
+
+/-- B7 lifted to `allowed`. -/
+theorem cidr_halves_allowed (v : View) {pre post : List NetPol} {np : NetPol}
+    (hnp : v.netpols = pre ++ np :: post) {dr : Dir} {rs1 rs2 : List NPRule}
+    {ps1 ps2 : List NPPeer} {ports : List NPPort} {c : Cidr} (h : c.pfx < 32) {ex : List Cidr}
+    (hrs : npRules np dr = rs1 ++ ⟨ps1 ++ .ip c ex :: ps2, ports⟩ :: rs2) :
+    allowed { v with netpols := pre ++ np.setRules dr (rs1 ++
+      ⟨ps1 ++ .ip c.halves.1 ex :: .ip c.halves.2 ex :: ps2, ports⟩ :: rs2) :: post } =
+      allowed v := by
+  have := allowed_replace_peers v hnp (dr := dr) (rs1 := rs1) (rs2 := rs2) (ps1 := ps1)
+    (mid := [.ip c ex]) (mid' := [.ip c.halves.1 ex, .ip c.halves.2 ex]) (ps2 := ps2)
+    (ports := ports) (by simpa using hrs) rfl (npPeerMatches_cidr_halves np c h ex)
+  simpa using this
+
+/-- B8. Splitting a policy in two (same namespace, pod selector and `policyTypes`; the rules of
+each direction distributed over the two parts in any order; names are irrelevant) changes
+nothing. No side condition on the affected directions is needed: with defaulted `policyTypes` a
+part without egress rules does not affect egress, but then it has no egress rule to contribute,
+and the pair governs egress exactly when the original did. -/
+theorem policy_split (v : View) {pre post : List NetPol} {np np1 np2 : NetPol}
+    (hnp : v.netpols = pre ++ np :: post)
+    (hns1 : np1.ns = np.ns) (hns2 : np2.ns = np.ns)
+    (hsel1 : np1.podSel = np.podSel) (hsel2 : np2.podSel = np.podSel)
+    (hty1 : np1.types = np.types) (hty2 : np2.types = np.types)
+    (hin : np.ingress.Perm (np1.ingress ++ np2.ingress))
+    (heg : np.egress.Perm (np1.egress ++ np2.egress)) :
+    allowed { v with netpols := pre ++ np1 :: np2 :: post } = allowed v := by
+  obtain ⟨hs, hc⟩ := policy_split_segment hns1 hns2 hsel1 hsel2 hty1 hty2
+    (fun d => by cases d <;> assumption)
+  have := allowed_replace_segment v (pre := pre) (mid := [np]) (mid' := [np1, np2]) (post := post)
+    (by simpa using hnp) hs hc
+  simpa using this
+
+/-- B8, the two facts behind it: the pair governs what the original governed … -/
+theorem policy_split_governs {np np1 np2 : NetPol}
+    (hns1 : np1.ns = np.ns) (hns2 : np2.ns = np.ns)
+    (hsel1 : np1.podSel = np.podSel) (hsel2 : np2.podSel = np.podSel)
+    (hty1 : np1.types = np.types) (hty2 : np2.types = np.types)
+    (hin : np.ingress.Perm (np1.ingress ++ np2.ingress))
+    (heg : np.egress.Perm (np1.egress ++ np2.egress)) (pod : Pod) (d : Dir) :
+    (npSelects np1 pod d || npSelects np2 pod d) = npSelects np pod d := by
+  have := (policy_split_segment hns1 hns2 hsel1 hsel2 hty1 hty2
+    (fun d => by cases d <;> assumption)).1 pod d
+  simpa using this
+
+/-- … and contributes what the original contributed. -/
+theorem policy_split_contrib {np np1 np2 : NetPol}
+    (hns1 : np1.ns = np.ns) (hns2 : np2.ns = np.ns)
+    (hsel1 : np1.podSel = np.podSel) (hsel2 : np2.podSel = np.podSel)
+    (hty1 : np1.types = np.types) (hty2 : np2.types = np.types)
+    (hin : np.ingress.Perm (np1.ingress ++ np2.ingress))
+    (heg : np.egress.Perm (np1.egress ++ np2.egress))
+    (pod : Pod) (other dst : End) (d : Dir) (pr : Proto) (p : Int) :
+    (npContrib np1 pod other dst d pr p || npContrib np2 pod other dst d pr p) =
+      npContrib np pod other dst d pr p := by
+  have := (policy_split_segment hns1 hns2 hsel1 hsel2 hty1 hty2
+    (fun d => by cases d <;> assumption)).2 pod other dst d pr p
+  simpa using this
+
+/-- B9. Writing out the defaulted `policyTypes` changes nothing: the affected directions … -/
+theorem policyTypes_explicit_eq_default (np : NetPol) (h : np.types = []) (d : Dir) :
+    npAffects { np with types := [.ingress] ++ (if np.egress.isEmpty then [] else [.egress]) } d =
+      npAffects np d :=
+  npAffects_explicit_default np h d
+
+/-- … and hence `allowed`. -/
+theorem policyTypes_explicit_eq_default_allowed (v : View) {pre post : List NetPol} {np : NetPol}
+    (hnp : v.netpols = pre ++ np :: post) (h : np.types = []) :
+    allowed { v with netpols := pre ++
+      { np with types := [.ingress] ++ (if np.egress.isEmpty then [] else [.egress]) } :: post } =
+      allowed v :=
+  allowed_replace_np_of_rules v hnp rfl (fun _ => rfl) (policyTypes_explicit_eq_default np h)
+    (fun d _ _ _ _ => by cases d <;> rfl)
+
+/-! ## C. order independence on the specification (C08) -/
+
+/-- the order of the NetworkPolicies is irrelevant -/
+theorem perm_netpols (v : View) {l : List NetPol} (h : v.netpols.Perm l) :
+    allowed { v with netpols := l } = allowed v := by
+  refine allowed_congr (v := v) (v' := { v with netpols := l }) rfl rfl ?_ ?_
+  · intro pod d
+    simp only [governs_eq_any, h.any_eq]
+  · intro pod other dst d pr p
+    simp only [npAllows_eq_any, h.any_eq]
+
+/-- the order of the rules of a policy is irrelevant -/
+theorem perm_rules (v : View) {pre post : List NetPol} {np : NetPol}
+    (hnp : v.netpols = pre ++ np :: post) {rsI rsE : List NPRule}
+    (hin : np.ingress.Perm rsI) (heg : np.egress.Perm rsE) :
+    allowed { v with netpols := pre ++ { np with ingress := rsI, egress := rsE } :: post } =
+      allowed v := by
+  refine allowed_replace_np_of_rules v hnp rfl (fun _ => rfl) ?_ ?_
+  · intro d
+    simp only [npAffects, heg.isEmpty_eq]
+  · intro d other dst pr p
+    cases d
+    · exact hin.symm.any_eq
+    · exact heg.symm.any_eq
+
+/-- the order of the peers of a rule is irrelevant -/
+theorem perm_peers (v : View) {pre post : List NetPol} {np : NetPol}
+    (hnp : v.netpols = pre ++ np :: post) {dr : Dir} {rs1 rs2 : List NPRule} {r : NPRule}
+    (hrs : npRules np dr = rs1 ++ r :: rs2) {peers' : List NPPeer} (h : r.peers.Perm peers') :
+    allowed { v with netpols :=
+      pre ++ np.setRules dr (rs1 ++ { r with peers := peers' } :: rs2) :: post } = allowed v :=
+  allowed_replace_rule v hnp hrs (npRuleAllows_perm np h (List.Perm.refl _))
+
+/-- the order of the ports of a rule is irrelevant -/
+theorem perm_ports (v : View) {pre post : List NetPol} {np : NetPol}
+    (hnp : v.netpols = pre ++ np :: post) {dr : Dir} {rs1 rs2 : List NPRule} {r : NPRule}
+    (hrs : npRules np dr = rs1 ++ r :: rs2) {ports' : List NPPort} (h : r.ports.Perm ports') :
+    allowed { v with netpols :=
+      pre ++ np.setRules dr (rs1 ++ { r with ports := ports' } :: rs2) :: post } = allowed v :=
+  allowed_replace_rule v hnp hrs (npRuleAllows_perm np (List.Perm.refl _) h)
+
+/-- the list of pods of the view is not used by `allowed` at all -/
+theorem perm_pods (v : View) (l : List (Pod × Labels)) :
+    allowed { v with pods := l } = allowed v := rfl
+
+/-- the order of the AdminNetworkPolicies is irrelevant when no two of them share a priority -/
+theorem perm_anps (v : View) {l : List ANP} (h : v.anps.Perm l)
+    (hd : ∀ a ∈ v.anps, ∀ b ∈ v.anps, a.prio = b.prio → a = b) :
+    allowed { v with anps := l } = allowed v := by
+  have hv : ∀ self other dst d pr p, anpVerdict { v with anps := l } self other dst d pr p =
+      anpVerdict v self other dst d pr p := by
+    intro self other dst d pr p
+    simp only [anpVerdict, mergeSort_prio_perm h hd]
+  funext src dst pr p
+  have hdir : ∀ self other d, allowedDir { v with anps := l } self other dst d pr p =
+      allowedDir v self other dst d pr p := by
+    intro self other d
+    cases self with
+    | ip a => rfl
+    | pod pod nsl =>
+      simp only [allowedDir, hv]
+      rfl
+  simp only [allowed, hdir]
+
+/-- `perm_anps` with the hypothesis as a `Pairwise` statement -/
+theorem perm_anps_of_pairwise (v : View) {l : List ANP} (h : v.anps.Perm l)
+    (hd : v.anps.Pairwise (fun a b => a.prio ≠ b.prio)) :
+    allowed { v with anps := l } = allowed v :=
+  perm_anps v h (prio_injOn_of_pairwise hd)
+
+/-! ## non-vacuity: the laws on a concrete small view -/
+namespace Ex
+
+def podA : Pod := { ns := "n", name := "a", labels := [("app", "a")], ports := [] }
+def podB : Pod := { ns := "n", name := "b", labels := [("app", "b")], ports := [] }
+def podC : Pod := { ns := "n", name := "c", labels := [("app", "c")], ports := [] }
+def A : End := .pod podA []
+def B : End := .pod podB []
+def C : End := .pod podC []
+def selApp (x : String) : Selector := ⟨[("app", x)], []⟩
+def fromApp (x : String) : NPRule := ⟨[.sel (some (selApp x)) none], [⟨none, .num 80 none⟩]⟩
+
+/-- `b` accepts TCP 80 from `a`; `policyTypes` defaulted, no egress rule -/
+def np0 : NetPol :=
+  { ns := "n", name := "np0", podSel := selApp "b", types := [], ingress := [fromApp "a"], egress := [] }
+def v0 : View := { pods := [], netpols := [np0], anps := [], banp := none }
+
+example : NPOnly v0 := by decide
+example : allowedNP v0 A B .TCP 80 = true ∧ allowedNP v0 C B .TCP 80 = false ∧
+    allowedNP v0 B A .TCP 80 = true := by decide
+
+/-- A1: a second ingress rule (from `c`) keeps `a → b` and adds `c → b` -/
+def v1 : View := { v0 with netpols := [{ np0 with ingress := [fromApp "a", fromApp "c"] }] }
+example : allowed v1 A B .TCP 80 = true :=
+  add_ingress_rule_monotone (v := v0) (by decide) (pre := []) (post := []) (np := np0) rfl
+    (rs1 := [fromApp "a"]) (rs2 := []) (fromApp "c") rfl A B .TCP 80
+    (by rw [allowed_eq_allowedNP (by decide)]; decide)
+example : allowedNP v1 C B .TCP 80 = true := by decide
+
+/-- A1, the side condition for egress is needed: the first egress rule of a policy with defaulted
+`policyTypes` makes the policy govern egress, and `b → a` is lost -/
+def v1e : View := { v0 with netpols := [{ np0 with egress := [fromApp "c"] }] }
+example : ¬ (np0.types ≠ [] ∨ np0.egress ≠ []) := by decide
+example : allowedNP v0 B A .TCP 80 = true ∧ allowedNP v1e B A .TCP 80 = false := by decide
+
+/-- A2: a second policy on the already governed `b` -/
+def q2 : NetPol := { np0 with name := "q2", ingress := [fromApp "c"] }
+example : ∀ pod d, npSelects q2 pod d = true → governs v0 pod d = true := by
+  intro pod d h
+  show (npSelects np0 pod d || false) = true
+  rw [Bool.or_false]; exact h
+example : allowedNP { v0 with netpols := [np0, q2] } A B .TCP 80 = true ∧
+    allowedNP { v0 with netpols := [np0, q2] } C B .TCP 80 = true := by decide
+
+/-- A3: a first policy on the so far ungoverned `a` -/
+def q3 : NetPol := { np0 with name := "q3", podSel := selApp "a", ingress := [fromApp "c"] }
+example : ∀ pod d, npSelects q3 pod d = true → governs v0 pod d = false := by
+  intro pod d h
+  show (npSelects np0 pod d || false) = false
+  simp only [npSelects, Bool.and_eq_true, q3, np0, selApp, Selector.matches, List.all_cons,
+    List.all_nil, Bool.and_true, beq_iff_eq] at h ⊢
+  simp [h.2]
+example : allowedNP v0 B A .TCP 80 = true ∧
+    allowedNP { v0 with netpols := [q3, np0] } B A .TCP 80 = false := by decide
+
+/-- A4: a policy on `c` is invisible for `a → b` -/
+def q4 : NetPol := { np0 with name := "q4", podSel := selApp "c", ingress := [] }
+example : selectsEnd q4 A .egress = false ∧ selectsEnd q4 B .ingress = false := by decide
+example : allowed { v0 with netpols := [np0, q4] } A B .TCP 80 = allowed v0 A B .TCP 80 :=
+  locality v0 (pre := [np0]) (post := []) rfl q4 A B (by decide) (by decide) .TCP 80
+
+/-! B5 -/
+example : Selector.matches ⟨[("app", "a")], []⟩ podA.labels = true ∧
+    Selector.matches ⟨[], [⟨"app", .In, ["a"]⟩]⟩ podA.labels = true ∧
+    Selector.matches ⟨[("app", "a")], []⟩ podB.labels = false ∧
+    Selector.matches ⟨[], [⟨"app", .In, ["a"]⟩]⟩ podB.labels = false := by decide
+example : allowed { v0 with netpols := [{ np0 with podSel := ⟨[], [⟨"app", .In, ["b"]⟩]⟩ }] } =
+    allowed v0 :=
+  matchLabels_eq_In_podSel_allowed v0 (pre := []) (post := []) (np := np0) rfl
+    (ml1 := []) (ml2 := []) (ex1 := []) (ex2 := []) rfl
+example : allowed { v0 with netpols := [{ np0 with ingress :=
+      [⟨[.sel (some ⟨[], [⟨"app", .In, ["a"]⟩]⟩) none], [⟨none, .num 80 none⟩]⟩] }] } = allowed v0 :=
+  matchLabels_eq_In_peerPodSel_allowed v0 (pre := []) (post := []) (np := np0) rfl
+    (dr := .ingress) (rs1 := []) (rs2 := []) (ps1 := []) (ps2 := [])
+    (ml1 := []) (ml2 := []) (ex1 := []) (ex2 := []) rfl
+
+/-! B6 -/
+example : (80 : Int) ≤ 85 ∧ (85 : Int) < 90 := by decide
+example : npPortMatches ⟨none, .num 80 (some 90)⟩ B .TCP 87 = true ∧
+    npPortMatches ⟨none, .num 80 (some 85)⟩ B .TCP 87 = false ∧
+    npPortMatches ⟨none, .num 86 (some 90)⟩ B .TCP 87 = true := by decide
+def npR : NetPol := { np0 with ingress := [⟨[], [⟨none, .num 80 (some 90)⟩]⟩] }
+example : allowed { v0 with netpols := [{ npR with ingress :=
+      [⟨[], [⟨none, .num 80 (some 85)⟩, ⟨none, .num (85 + 1) (some 90)⟩]⟩] }] } =
+    allowed { v0 with netpols := [npR] } :=
+  port_range_split_allowed { v0 with netpols := [npR] } (pre := []) (post := []) (np := npR) rfl
+    (dr := .ingress) (rs1 := []) (rs2 := []) (qs1 := []) (qs2 := []) (m := 85) (by decide) rfl
+
+/-! B7 -/
+example : (⟨0x0A000000, 8⟩ : Cidr).halves = (⟨0x0A000000, 9⟩, ⟨0x0A800000, 9⟩) := by decide
+example : (⟨0x0A0B0C0D, 8⟩ : Cidr).halves = (⟨0x0A000000, 9⟩, ⟨0x0A800000, 9⟩) := by decide
+example : cidrMem ⟨0x0A000000, 8⟩ 0x0A800001 = true ∧ cidrMem ⟨0x0A000000, 9⟩ 0x0A800001 = false ∧
+    cidrMem ⟨0x0A800000, 9⟩ 0x0A800001 = true := by decide
+/-- the hypothesis `c.pfx < 32` is needed: a /32 has no halves -/
+example : cidrMem ⟨5, 32⟩ 6 = false ∧ cidrMem (⟨5, 32⟩ : Cidr).halves.2 6 = true := by decide
+def npIP : NetPol := { np0 with ingress := [⟨[.ip ⟨0x0A000000, 8⟩ [⟨0x0A010000, 16⟩]], []⟩] }
+example : allowed { v0 with netpols := [{ npIP with ingress :=
+      [⟨[.ip (⟨0x0A000000, 8⟩ : Cidr).halves.1 [⟨0x0A010000, 16⟩],
+         .ip (⟨0x0A000000, 8⟩ : Cidr).halves.2 [⟨0x0A010000, 16⟩]], []⟩] }] } =
+    allowed { v0 with netpols := [npIP] } :=
+  cidr_halves_allowed { v0 with netpols := [npIP] } (pre := []) (post := []) (np := npIP) rfl
+    (dr := .ingress) (rs1 := []) (rs2 := []) (ps1 := []) (ps2 := []) (by decide) rfl
+
+/-! B8: defaulted `policyTypes`, one part takes the ingress rule, the other the egress rule -/
+def npS : NetPol := { np0 with egress := [fromApp "c"] }
+def npS1 : NetPol := { np0 with name := "s1" }
+def npS2 : NetPol := { np0 with name := "s2", ingress := [], egress := [fromApp "c"] }
+example : npAffects npS1 .egress = false ∧ npAffects npS2 .egress = true ∧
+    npAffects npS .egress = true := by decide
+example : allowed { v0 with netpols := [npS1, npS2] } = allowed { v0 with netpols := [npS] } :=
+  policy_split { v0 with netpols := [npS] } (pre := []) (post := []) (np := npS) rfl
+    rfl rfl rfl rfl rfl rfl (.refl _) (.refl _)
+
+/-! B9 -/
+example : allowed { v0 with netpols := [{ np0 with types := [.ingress] }] } = allowed v0 :=
+  policyTypes_explicit_eq_default_allowed v0 (pre := []) (post := []) (np := np0) rfl rfl
+example : allowed { v0 with netpols := [{ npS with types := [.ingress, .egress] }] } =
+    allowed { v0 with netpols := [npS] } :=
+  policyTypes_explicit_eq_default_allowed { v0 with netpols := [npS] } (pre := []) (post := [])
+    (np := npS) rfl rfl
+
+/-! C -/
+example : allowed { v0 with netpols := [npS2, npS1] } = allowed { v0 with netpols := [npS1, npS2] } :=
+  perm_netpols { v0 with netpols := [npS1, npS2] } (List.Perm.swap _ _ _)
+
+def anp1 : ANP :=
+  { name := "x", prio := 1, subject := .nss ⟨[], []⟩,
+    ingress := [⟨"d", .Deny, [.nss ⟨[], []⟩], none⟩], egress := [] }
+def anp2 : ANP :=
+  { name := "y", prio := 2, subject := .nss ⟨[], []⟩,
+    ingress := [⟨"a", .Allow, [.nss ⟨[], []⟩], none⟩], egress := [] }
+example : allowed { v0 with anps := [anp2, anp1] } = allowed { v0 with anps := [anp1, anp2] } :=
+  perm_anps { v0 with anps := [anp1, anp2] } (List.Perm.swap _ _ _) (by
+    intro a ha b hb h
+    have ha : a = anp1 ∨ a = anp2 := by simpa using ha
+    have hb : b = anp1 ∨ b = anp2 := by simpa using hb
+    rcases ha with rfl | rfl <;> rcases hb with rfl | rfl <;>
+      first | rfl | exact absurd h (by decide))
+example : allowed { v0 with anps := [anp2, anp1] } = allowed { v0 with anps := [anp1, anp2] } :=
+  perm_anps_of_pairwise { v0 with anps := [anp1, anp2] } (List.Perm.swap _ _ _) (by decide)
+
+/-! C, inside a policy and inside a rule -/
+example : allowed { v0 with netpols := [{ np0 with ingress := [fromApp "c", fromApp "a"], egress := [] }] } =
+    allowed v1 :=
+  perm_rules v1 (pre := []) (post := []) (np := { np0 with ingress := [fromApp "a", fromApp "c"] })
+    rfl (List.Perm.swap _ _ _) (.refl _)
+def r2 : NPRule :=
+  ⟨[.sel (some (selApp "a")) none, .sel (some (selApp "c")) none], [⟨none, .num 80 none⟩, ⟨none, .num 81 none⟩]⟩
+example : allowed { v0 with netpols := [{ np0 with ingress := [{ r2 with peers := r2.peers.reverse }] }] } =
+    allowed { v0 with netpols := [{ np0 with ingress := [r2] }] } :=
+  perm_peers { v0 with netpols := [{ np0 with ingress := [r2] }] } (pre := []) (post := [])
+    (np := { np0 with ingress := [r2] }) rfl (dr := .ingress) (rs1 := []) (rs2 := []) (r := r2) rfl
+    (List.Perm.swap _ _ _)
+example : allowed { v0 with netpols := [{ np0 with ingress := [{ r2 with ports := r2.ports.reverse }] }] } =
+    allowed { v0 with netpols := [{ np0 with ingress := [r2] }] } :=
+  perm_ports { v0 with netpols := [{ np0 with ingress := [r2] }] } (pre := []) (post := [])
+    (np := { np0 with ingress := [r2] }) rfl (dr := .ingress) (rs1 := []) (rs2 := []) (r := r2) rfl
+    (List.Perm.swap _ _ _)
+
+end Ex
 
 end Netpol.Properties.C14
